@@ -585,7 +585,7 @@ theorem splitB_length (sep : UInt8) (s : Bytes) : (splitB sep s).length = countB
     by_cases h : c = sep
     · subst h; simp [ih, countB]
     · have hc : countB sep (c :: s) = countB sep s := by
-        simp [countB, List.count_cons, h]
+        simp [countB, h]
       rw [if_neg h, hc, ← ih]
       cases hs : splitB sep s with
       | nil => exact absurd hs (splitB_ne_nil sep s)
